@@ -6,7 +6,7 @@ container being updated is kept apart. Core Lean only.
 import NriModel.Lemmas.ResultSteps
 
 namespace Nri.Result
-open Nri.Api Nri.Ledger
+open Nri.NApi Nri.Ledger
 
 def ids (l : List Update) : List Cid := l.map (·.containerId)
 
@@ -172,7 +172,7 @@ theorem update1_ids (q st st' p u) (h : update1 q st p u = .ok st') :
 end Nri.Result
 
 namespace Nri.Result
-open Nri.Api Nri.Ledger
+open Nri.NApi Nri.Ledger
 
 theorem update1_entries (q st st' p u) (h : update1 q st p u = .ok st') (wf : UpdWF st) :
     UpdWF st' ∧
